@@ -1,6 +1,12 @@
 """Which contracts decide which property."""
 
 PROPERTIES = {
+    "C16": dict(
+        contracts=[
+            ("contracts.scheduler", "scheduler_backtrack_fits_template"),
+        ],
+        trusted_base=[],
+    ),
     "C03": dict(
         contracts=[
             ("contracts.dart", "SchedulePattern_rotate"),
@@ -12,6 +18,7 @@ PROPERTIES = {
             ("contracts.dart", "Schedule_tile_dim"),
             ("contracts.dart", "Schedule_add_dim"),
             ("contracts.dart", "PatternCollection_clear_unused_dims"),
+            ("contracts.scheduler", "scheduler_backtrack_iteration_space"),
         ],
         trusted_base=[],
     ),
